@@ -3,7 +3,7 @@ import S3V.Spec.Xml
 import S3V.Gen.XmlDe
 import S3V.Props.C13
 /-!
-# C13 — kernel-checked witnesses of the open findings (outside the pass/fail gate)
+# C13 — kernel-checked witnesses of the open findings and regression facts of the fixed ones (outside the pass/fail gate)
 
 Each theorem evaluates the *model* (which the correspondence run ties to the real code on the same witness lines,
 see `corpus/xml.txt`) and the *specification* on one concrete document.
@@ -90,11 +90,34 @@ theorem eol_not_normalised : (match decodeStr [97, 13, 10, 98] with | .ok s => s
 def docJunk : Bytes :=
   [106, 117, 110, 107, 60, 75, 101, 121, 62, 107, 60, 47, 75, 101, 121, 62, 106, 117, 110, 107]
 
-/-- F-xml-6 (`xml-text-outside-root`): accepted … -/
-theorem text_outside_root_accepted :
-    strOf (decodeDoc X0 (.named key) .str (deEvents (tokenize docJunk))) = some [107] := by decide
+/-- the error a decoding run ended with -/
+def errOf : Except DeErr Val → Option DeErr
+  | .error e => some e
+  | _ => none
 
-/-- … although not well-formed -/
+/-- F-xml-6 (`xml-text-outside-root`, FIXED by 4f52948): `junk<Key>k</Key>junk` is refused with `InvalidContent`
+(before: accepted as `k`; `expect_start` / `expect_eof` skipped every text event) … -/
+theorem text_outside_root_refused :
+    errOf (decodeDoc X0 (.named key) .str (deEvents (tokenize docJunk))) = some .invalidContent := by decide
+
+/-- … the reader stops at the first piece of character data outside the root … -/
+theorem text_outside_root_events : deEvents (tokenize docJunk) = [.bad .invalidContent] := by decide
+
+/-- … text behind the root alone is refused as well: `<Key>k</Key>junk` … -/
+theorem text_after_root_refused :
+    errOf (decodeDoc X0 (.named key) .str (deEvents (tokenize (docJunk.drop 4)))) = some .invalidContent := by decide
+
+/-- … and so is a CDATA section there: `<Key>k</Key><![CDATA[]]>` … -/
+theorem cdata_after_root_refused :
+    errOf (decodeDoc X0 (.named key) .str (deEvents (tokenize
+      ((docJunk.drop 4).take 12 ++ [60, 33, 91, 67, 68, 65, 84, 65, 91, 93, 93, 62])))) = some .invalidContent := by decide
+
+/-- … white space around the root is accepted as before: ` \n<Key>k</Key>\r\n\t` … -/
+theorem whitespace_outside_root_accepted :
+    strOf (decodeDoc X0 (.named key) .str (deEvents (tokenize
+      ([32, 10] ++ (docJunk.drop 4).take 12 ++ [13, 10, 9])))) = some [107] := by decide
+
+/-- … the specification: `junk<Key>k</Key>junk` is not well-formed -/
 theorem text_outside_root_illformed :
     (match XmlSpec.parse docJunk with | .error (.illFormed _) => true | _ => false) = true := by decide
 
